@@ -385,6 +385,10 @@ def parking_leak_region(script):
             return "F19"
         if d["op"] == "indicator" and reads_times(d["i"]):
             return "user expression over an optional task"
+        if d["op"] == "objective" and d["o"][0] in ("startLatest", "greatestStart") and \
+                (d["o"][1] is None or mentions_optional(d["o"][1])):
+            # the minimum / maximum of the start times counts the parking instant of an unscheduled task (finding F43)
+            return "F43"
     return None
 
 
